@@ -28,7 +28,7 @@ TRACE_MODULE = {"C17": "TraceHashTbl"}
 
 ACTIONS = {"DoNew": "new", "DoInsert": "insert", "DoFind": "find", "DoGet": "get", "DoRemove": "remove",
            "DoRetain": "retain", "DoDrain": "drain", "DoIntoIter": "into_iter", "DoIter": "iter",
-           "DoLen": "len", "DoClear": "clear", "DoReserve": "reserve", "DoClone": "clone"}
+           "DoLen": "len", "DoClear": "clear", "DoClearNd": "clear_nd", "DoReset": "reset_nd", "DoReserve": "reserve", "DoClone": "clone"}
 
 # (cfg suffix, tables, {tier: env}, situation tags (substring, or regex if it starts with ^) that the
 #  replayed behaviours must contain)
